@@ -304,6 +304,9 @@ func genWSWith(r *hx.Rand, order string) wsIn {
 }
 
 func genWS(r *hx.Rand, i int) interface{} {
+	if genHalfClose {
+		return genWSWith(r, []string{"client", "client", "upstream", "upstream", "halfclose"}[r.Intn(5)])
+	}
 	return genWSWith(r, []string{"client", "upstream"}[r.Intn(2)])
 }
 
